@@ -421,3 +421,315 @@ Proof.
   eapply esim_erase; eauto.
 Qed.
 Print Assumptions space_next_to_operator.
+
+(* ---------------------------------------------------------------- grouping: from tokens to forests *)
+Definition is_openk (t : token) : bool := match tk t with TLit LOpenP | TLit LOpenB => true | _ => false end.
+Definition is_closek (t : token) : bool := match tk t with TLit LCloseP | TLit LCloseB => true | _ => false end.
+Definition is_delim (t : token) : bool := is_openk t || is_closek t.
+Definition opens (p : bool) (t : token) : bool := match tk t with TLit LOpenP => p | TLit LOpenB => negb p | _ => false end.
+Definition closes (p : bool) (t : token) : bool := match tk t with TLit LCloseP => p | TLit LCloseB => negb p | _ => false end.
+
+Fixpoint flat1 (t : ttree) : list token :=
+  match t with
+  | TT a => [a]
+  | TG _ o c inner => o :: flat_map flat1 inner ++ [c]
+  end.
+Definition flat (ts : list ttree) : list token := flat_map flat1 ts.
+
+Fixpoint proper1 (t : ttree) : bool :=
+  match t with
+  | TT a => negb (is_delim a)
+  | TG p o c inner => opens p o && closes p c && forallb proper1 inner
+  end.
+Definition proper (ts : list ttree) : bool := forallb proper1 ts.
+
+Lemma ttree_ind' (P : ttree -> Prop) :
+  (forall a, P (TT a)) -> (forall p o c inner, Forall P inner -> P (TG p o c inner)) -> forall t, P t.
+Proof.
+  intros HT HG. fix IH 1. intros [a|p o c inner]; [apply HT|apply HG].
+  induction inner as [|x l IHl]; constructor; [apply IH|exact IHl].
+Qed.
+
+(* processing the tokens of a proper forest pushes exactly its trees *)
+Lemma group_complete : forall ts, proper ts = true -> forall rest st cur,
+  group (flat ts ++ rest) st cur = group rest st (rev ts ++ cur).
+Proof.
+  assert (H1 : forall t, proper1 t = true -> forall rest st cur, group (flat1 t ++ rest) st cur = group rest st (t :: cur)).
+  { induction t as [a|p o c inner IH] using ttree_ind'; intros Hp rest st cur; cbn [flat1 proper1] in *.
+    - cbn [List.app group]. unfold is_delim, is_openk, is_closek in Hp. destruct (tk a) as [[]| | |]; try reflexivity; discriminate Hp.
+    - apply andb_prop in Hp as [Hp Hin]. apply andb_prop in Hp as [Ho Hc].
+      cbn [List.app group]. unfold opens in Ho.
+      assert (Hinner : forall l, Forall (fun t => proper1 t = true -> forall rest st cur, group (flat1 t ++ rest) st cur = group rest st (t :: cur)) l ->
+                forallb proper1 l = true -> forall rest st cur, group (flat_map flat1 l ++ rest) st cur = group rest st (rev l ++ cur)).
+      { induction l as [|x l IHl]; intros HF Hpl rest0 st0 cur0; [reflexivity|]. inversion HF; subst. cbn [forallb] in Hpl. apply andb_prop in Hpl as [Hx Hl].
+        cbn [flat_map rev]. rewrite <- !app_assoc. rewrite (H1 Hx). rewrite (IHl H2 Hl). cbn [List.app]. reflexivity. }
+      rewrite <- app_assoc. cbn [List.app].
+      destruct (tk o) as [[]| | |] eqn:Eo; try discriminate Ho.
+      + (* "(" *) destruct p; [|discriminate Ho]. rewrite (Hinner inner IH Hin). cbn [group]. unfold closes in Hc.
+        destruct (tk c) as [[]| | |]; try discriminate Hc. rewrite app_nil_r, rev_involutive. reflexivity.
+      + (* "[" *) destruct p; [discriminate Ho|]. rewrite (Hinner inner IH Hin). cbn [group]. unfold closes in Hc.
+        destruct (tk c) as [[]| | |]; try discriminate Hc. rewrite app_nil_r, rev_involutive. reflexivity. }
+  induction ts as [|t r IH]; intros Hp rest st cur; [reflexivity|]. cbn [proper forallb] in Hp. apply andb_prop in Hp as [Ht Hr].
+  unfold flat in *. cbn [flat_map rev]. rewrite <- !app_assoc. rewrite (H1 t Ht). rewrite (IH Hr). cbn [List.app]. reflexivity.
+Qed.
+
+(* ---- what grouping returns is a proper forest whose tokens are the input ---- *)
+Fixpoint consumed (st : list (bool * token * list ttree)) (cur : list ttree) : list token :=
+  match st with
+  | [] => flat (rev cur)
+  | (p, o, outer) :: st' => consumed st' outer ++ o :: flat (rev cur)
+  end.
+Fixpoint wfst (st : list (bool * token * list ttree)) : bool :=
+  match st with [] => true | (p, o, outer) :: st' => opens p o && proper (rev outer) && wfst st' end.
+
+Lemma flat_app a b : flat (a ++ b) = flat a ++ flat b. Proof. unfold flat. apply flat_map_app. Qed.
+Lemma proper_app a b : proper (a ++ b) = proper a && proper b. Proof. unfold proper. apply forallb_app. Qed.
+
+Ltac lst := repeat (rewrite <- app_assoc || rewrite <- app_comm_cons); cbn [List.app]; try reflexivity.
+
+Lemma group_sound_gen : forall toks st cur ts,
+  wfst st = true -> proper (rev cur) = true -> group toks st cur = Ok ts ->
+  proper ts = true /\ flat ts = consumed st cur ++ toks.
+Proof.
+  induction toks as [|t r IH]; intros st cur ts Hst Hcur H; cbn [group] in H.
+  - destruct st as [|[[p o] outer] st']; [|discriminate H]. injection H as <-. split; [exact Hcur|]. cbn [consumed]. now rewrite app_nil_r.
+  - assert (Hplain : negb (is_delim t) = true -> group r st (TT t :: cur) = Ok ts ->
+                     proper ts = true /\ flat ts = consumed st cur ++ t :: r).
+    { intros Hnd H'. destruct (IH st (TT t :: cur) ts Hst) as [P E2]; [cbn [rev]; rewrite proper_app, Hcur; cbn [proper forallb proper1]; now rewrite Hnd|exact H'|].
+      split; [exact P|]. rewrite E2. clear.
+      destruct st as [|[[p o] outer] st']; cbn [consumed rev]; rewrite flat_app; cbn [flat flat_map flat1 List.app]; lst. }
+    unfold is_delim, is_openk, is_closek in Hplain.
+    destruct (tk t) as [[]| | |] eqn:Et; try (apply Hplain; [reflexivity|exact H]).
+    + (* "(" *) destruct (IH ((true, t, cur) :: st) [] ts) as [P E2]; [cbn [wfst]; unfold opens; rewrite Et, Hcur, Hst; reflexivity|reflexivity|exact H|].
+      split; [exact P|]. rewrite E2. cbn [consumed rev flat flat_map]. lst.
+    + (* "[" *) destruct (IH ((false, t, cur) :: st) [] ts) as [P E2]; [cbn [wfst]; unfold opens; rewrite Et, Hcur, Hst; reflexivity|reflexivity|exact H|].
+      split; [exact P|]. rewrite E2. cbn [consumed rev flat flat_map]. lst.
+    + (* ")" *) destruct st as [|[[p o] outer] st']; [discriminate H|]. destruct p; [|discriminate H].
+      cbn [wfst] in Hst. apply andb_prop in Hst as [Hst Hst']. apply andb_prop in Hst as [Ho Houter].
+      destruct (IH st' (TG true o t (rev cur) :: outer) ts Hst') as [P E2]; [|exact H|].
+      * cbn [rev]. rewrite proper_app, Houter. cbn [proper forallb proper1]. rewrite Ho. unfold closes. rewrite Et. fold (proper (rev cur)). now rewrite Hcur.
+      * split; [exact P|]. rewrite E2. clear.
+        destruct st' as [|[[p2 o2] outer2] st2]; cbn [consumed rev]; rewrite !flat_app; cbn [flat flat_map flat1 List.app]; rewrite ?app_nil_r; lst.
+    + (* "]" *) destruct st as [|[[p o] outer] st']; [discriminate H|]. destruct p; [discriminate H|].
+      cbn [wfst] in Hst. apply andb_prop in Hst as [Hst Hst']. apply andb_prop in Hst as [Ho Houter].
+      destruct (IH st' (TG false o t (rev cur) :: outer) ts Hst') as [P E2]; [|exact H|].
+      * cbn [rev]. rewrite proper_app, Houter. cbn [proper forallb proper1]. rewrite Ho. unfold closes. rewrite Et. fold (proper (rev cur)). now rewrite Hcur.
+      * split; [exact P|]. rewrite E2. clear.
+        destruct st' as [|[[p2 o2] outer2] st2]; cbn [consumed rev]; rewrite !flat_app; cbn [flat flat_map flat1 List.app]; rewrite ?app_nil_r; lst.
+Qed.
+
+(* ---- whether and where grouping fails depends on the delimiters only ---- *)
+Fixpoint bal (toks : list token) (stk : list bool) : option nat :=
+  match toks with
+  | [] => match stk with [] => None | _ => Some 128%nat end
+  | t :: r =>
+    match tk t with
+    | TLit LOpenP => bal r (true :: stk)
+    | TLit LOpenB => bal r (false :: stk)
+    | TLit LCloseP => match stk with true :: s => bal r s | _ => Some 118%nat end
+    | TLit LCloseB => match stk with false :: s => bal r s | _ => Some 118%nat end
+    | _ => bal r stk
+    end
+  end.
+
+Lemma group_bal : forall toks st cur,
+  match group toks st cur with
+  | Ok _ => bal toks (map (fun e => fst (fst e)) st) = None
+  | Err s _ => bal toks (map (fun e => fst (fst e)) st) = Some s
+  | Internal _ => False
+  end.
+Proof.
+  induction toks as [|t r IH]; intros st cur; cbn [group bal].
+  - destruct st as [|[[p o] outer] st']; reflexivity.
+  - destruct (tk t) as [l| | |]; [destruct l| | |]; try apply IH.
+    + destruct st as [|[[p o] outer] st']; [reflexivity|]. cbn [map fst]. destruct p; [apply IH|reflexivity].
+    + destruct st as [|[[p o] outer] st']; [reflexivity|]. cbn [map fst]. destruct p; [reflexivity|apply IH].
+Qed.
+
+Lemma bal_insert s : is_delim s = false -> forall L R stk, bal (L ++ s :: R) stk = bal (L ++ R) stk.
+Proof.
+  intros Hs. induction L as [|t r IH]; intros R stk; cbn [List.app bal].
+  - unfold is_delim, is_openk, is_closek in Hs. destruct (tk s) as [[]| | |]; try reflexivity; discriminate Hs.
+  - destruct (tk t) as [[]| | |]; try apply IH; destruct stk as [|[] stk']; try reflexivity; apply IH.
+Qed.
+
+(* ---- where a position of the token list lies in the forest ---- *)
+Lemma flat1_nonempty t : flat1 t <> []. Proof. destruct t; cbn; discriminate. Qed.
+
+Lemma locate : forall ts L R, flat ts = L ++ R ->
+  (exists A B, ts = A ++ B /\ flat A = L /\ flat B = R) \/
+  (exists A t B L1 R1, ts = A ++ t :: B /\ L = flat A ++ L1 /\ R = R1 ++ flat B /\ flat1 t = L1 ++ R1 /\ L1 <> [] /\ R1 <> []).
+Proof.
+  induction ts as [|t r IH]; intros L R H.
+  - unfold flat in H. cbn in H. destruct L; [|discriminate]. destruct R; [|discriminate]. left. exists [], []. auto.
+  - unfold flat in H. cbn [flat_map] in H. fold (flat r) in H.
+    (* compare L with flat1 t *)
+    assert (Hc : (exists X, flat1 t = L ++ X /\ R = X ++ flat r) \/ (exists L2, L = flat1 t ++ L2 /\ flat r = L2 ++ R)).
+    { clear IH. revert L H. generalize (flat1 t). induction l as [|a l IHl]; intros L H.
+      - right. exists L. auto.
+      - destruct L as [|b L'].
+        + left. exists (a :: l). cbn in *. auto.
+        + cbn [List.app] in H. injection H as <- H. destruct (IHl L' H) as [[X [E1 E2]]|[L2 [E1 E2]]].
+          * left. exists X. cbn [List.app]. split; [now rewrite E1|exact E2].
+          * right. exists L2. cbn [List.app]. split; [now rewrite E1|exact E2]. }
+    destruct Hc as [[X [E1 E2]]|[L2 [E1 E2]]].
+    + destruct L as [|b L'].
+      * left. exists [], (t :: r). cbn [List.app flat flat_map] in *. split; [reflexivity|split; [reflexivity|]]. subst. reflexivity.
+      * destruct X as [|x X'].
+        -- (* L is exactly flat1 t *) left. exists [t], r. cbn [List.app flat flat_map]. rewrite app_nil_r in *. subst. rewrite E1. auto.
+        -- right. exists [], t, r, (b :: L'), (x :: X'). cbn [List.app flat flat_map]. repeat split; auto; discriminate.
+    + destruct (IH L2 R E2) as [[A [B [Ea [Eb Ec]]]]|[A [t2 [B [L1 [R1 [Ea [Eb [Ec [Ed [Ee Ef]]]]]]]]]]].
+      * left. exists (t :: A), B. cbn [List.app flat flat_map]. subst. auto.
+      * right. exists (t :: A), t2, B, L1, R1. cbn [List.app flat flat_map]. subst. rewrite <- app_assoc. repeat split; auto.
+Qed.
+
+(* ---- inserting the space into the forest ---- *)
+Definition idz := fun z : Z => z.
+Lemma ttsim_refl : forall t, ttsim idz t t.
+Proof.
+  induction t as [a|p o c inner IH] using ttree_ind'; [constructor; split; reflexivity|]. constructor.
+  induction IH; constructor; auto.
+Qed.
+Lemma ttsim_refl_list l : Forall2 (ttsim idz) l l.
+Proof. induction l; constructor; [apply ttsim_refl|assumption]. Qed.
+
+Definition okL (t : token) : bool := strongt t || is_openk t.
+Definition okR (t : token) : bool := strongt t || is_closek t.
+(* the tokens next to the place where the space goes *)
+Definition cond (L R : list token) : Prop :=
+  L = [] \/ R = [] \/ (exists L0 a, L = L0 ++ [a] /\ okL a = true) \/ (exists b R0, R = b :: R0 /\ okR b = true).
+
+Lemma flat_nil A : flat A = [] -> A = [].
+Proof. destruct A as [|t r]; [reflexivity|]. unfold flat. cbn [flat_map]. intros H. apply app_eq_nil in H as [H _]. now apply flat1_nonempty in H. Qed.
+
+Lemma snoc_cases {X} (l : list X) : l = [] \/ exists l0 x, l = l0 ++ [x].
+Proof. induction l as [|a r IH] using rev_ind; [now left|right; eauto]. Qed.
+
+Lemma last_flat1 t p a : proper1 t = true -> flat1 t = p ++ [a] -> (t = TT a) \/ (is_closek a = true /\ strongt a = false /\ is_openk a = false).
+Proof.
+  destruct t as [b|pp o c inner]; cbn [flat1 proper1]; intros Hp H.
+  - left. destruct p as [|x p']; [injection H as <-; reflexivity|]. destruct p'; discriminate.
+  - right. apply andb_prop in Hp as [Hp _]. apply andb_prop in Hp as [_ Hc].
+    change (o :: flat_map flat1 inner ++ [c]) with ((o :: flat_map flat1 inner) ++ [c]) in H. apply app_inj_tail in H as [_ <-].
+    unfold closes in Hc. unfold is_closek, strongt, is_openk. destruct (tk c) as [[]| | |]; try discriminate Hc; auto.
+Qed.
+Lemma hd_flat1 t b q : proper1 t = true -> flat1 t = b :: q -> (t = TT b) \/ (is_openk b = true /\ strongt b = false /\ is_closek b = false).
+Proof.
+  destruct t as [a|pp o c inner]; cbn [flat1 proper1]; intros Hp H.
+  - left. injection H as <- _. reflexivity.
+  - right. injection H as <- _. apply andb_prop in Hp as [Hp _]. apply andb_prop in Hp as [Ho _].
+    unfold opens in Ho. unfold is_closek, strongt, is_openk. destruct (tk o) as [[]| | |]; try discriminate Ho; auto.
+Qed.
+
+Section Insert.
+  Variable s : token.
+  Hypothesis Hs : is_space s = true.
+
+  Lemma space_proper : proper1 (TT s) = true.
+  Proof. cbn [proper1]. unfold is_space in Hs. unfold is_delim, is_openk, is_closek. destruct (tk s) as [[]| | |]; try discriminate Hs; reflexivity. Qed.
+
+  Definition P (t : ttree) : Prop :=
+    proper1 t = true -> forall L1 R1, flat1 t = L1 ++ R1 -> L1 <> [] -> R1 <> [] -> cond L1 R1 ->
+    exists t', flat1 t' = L1 ++ s :: R1 /\ proper1 t' = true /\
+               exists p o c in' in_, t' = TG p o c in' /\ t = TG p o c in_ /\ tJ idz in' in_.
+
+  Lemma insert_forest ts : Forall P ts -> proper ts = true -> forall L R, flat ts = L ++ R -> cond L R ->
+    exists ts', flat ts' = L ++ s :: R /\ proper ts' = true /\ tJ idz ts' ts.
+  Proof.
+    intros HP Hpr L R Hf Hc. destruct (locate ts L R Hf) as [[A [B [-> [EA EB]]]]|[A [t [B [L1 [R1 [-> [EL [ER [Et [HL1 HR1]]]]]]]]]]].
+    - (* between two trees of this list, or at one of its ends *)
+      exists (A ++ TT s :: B). rewrite proper_app in Hpr. apply andb_prop in Hpr as [PA PB].
+      split; [rewrite flat_app; unfold flat at 2; cbn [flat_map flat1]; fold (flat B); now rewrite EA, EB|].
+      split; [rewrite proper_app, PA; unfold proper; cbn [forallb]; rewrite space_proper; exact PB|].
+      apply tJ_ins; [apply ttsim_refl_list|apply ttsim_refl_list|exact Hs|].
+      destruct (snoc_cases A) as [->|[A0 [x ->]]]; [now left|]. destruct B as [|y B0]; [right; now left|].
+      right. right. rewrite proper_app in PA. apply andb_prop in PA as [_ Px]. cbn [proper forallb] in Px, PB. apply andb_prop in Px as [Px _]. apply andb_prop in PB as [Py _].
+      destruct Hc as [->|[->|[[L0 [a [-> Ha]]]|[b [R0 [-> Hb]]]]]].
+      + rewrite flat_app in EA. apply app_eq_nil in EA as [_ EA]. unfold flat in EA. cbn in EA. rewrite app_nil_r in EA. now apply flat1_nonempty in EA.
+      + unfold flat in EB. cbn [flat_map] in EB. apply app_eq_nil in EB as [EB _]. now apply flat1_nonempty in EB.
+      + rewrite flat_app in EA. unfold flat at 2 in EA. cbn [flat_map] in EA. rewrite app_nil_r in EA.
+        destruct (snoc_cases (flat1 x)) as [E|[q [z Ez]]]; [now apply flat1_nonempty in E|]. rewrite Ez, app_assoc in EA. apply app_inj_tail in EA as [_ <-].
+        destruct (last_flat1 x q z Px Ez) as [->|[H1 [H2 H3]]]; [|unfold okL in Ha; rewrite H2, H3 in Ha; discriminate].
+        left. exists A0, z. split; [reflexivity|]. unfold okL in Ha. cbn [proper1] in Px. unfold is_delim in Px. destruct (strongt z); [reflexivity|]. cbn [orb] in Ha. rewrite Ha in Px. discriminate.
+      + unfold flat in EB. cbn [flat_map] in EB. destruct (flat1 y) as [|z q] eqn:Ey; [now apply flat1_nonempty in Ey|]. cbn [List.app] in EB. injection EB as <- _.
+        destruct (hd_flat1 y z q Py Ey) as [->|[H1 [H2 H3]]]; [|unfold okR in Hb; rewrite H2, H3 in Hb; discriminate].
+        right. exists z, B0. split; [reflexivity|]. unfold okR in Hb. cbn [proper1] in Py. unfold is_delim in Py. destruct (strongt z); [reflexivity|]. cbn [orb] in Hb. rewrite Hb, orb_true_r in Py. discriminate.
+    - (* strictly inside the tree t *)
+      rewrite proper_app in Hpr. apply andb_prop in Hpr as [PA PtB]. cbn [proper forallb] in PtB. apply andb_prop in PtB as [Pt PB].
+      assert (HPt : P t) by (rewrite Forall_forall in HP; apply HP; apply in_or_app; right; now left).
+      assert (Hc1 : cond L1 R1).
+      { destruct Hc as [->|[->|[[L0 [a [E Ha]]]|[b [R0 [E Hb]]]]]].
+        - symmetry in EL. apply app_eq_nil in EL as [_ EL]. congruence.
+        - symmetry in ER. apply app_eq_nil in ER as [ER _]. congruence.
+        - right. right. left. destruct (snoc_cases L1) as [E1|[q [z ->]]]; [congruence|]. rewrite EL, app_assoc in E. apply app_inj_tail in E as [_ ->]. eauto.
+        - right. right. right. destruct R1 as [|z q]; [congruence|]. rewrite ER in E. cbn [List.app] in E. injection E as -> _. eauto. }
+      destruct (HPt Pt L1 R1 Et HL1 HR1 Hc1) as [t' [Ft [Pt' [p [o [c [in' [in_ [-> [-> HJ]]]]]]]]]].
+      exists (A ++ TG p o c in' :: B).
+      split; [rewrite flat_app; unfold flat at 2; cbn [flat_map]; fold (flat B); rewrite Ft, EL, ER; lst|].
+      split; [rewrite proper_app, PA; cbn [proper forallb]; rewrite Pt'; exact PB|].
+      apply tJ_in; [apply ttsim_refl_list|apply ttsim_refl_list|exact HJ].
+  Qed.
+
+  Lemma insert_tree : forall t, P t.
+  Proof.
+    induction t as [a|p o c inner IH] using ttree_ind'; intros Hp L1 R1 Hf HL HR Hc.
+    - cbn [flat1] in Hf. destruct L1 as [|x [|y q]]; try congruence; cbn [List.app] in Hf; [|discriminate].
+      injection Hf as _ Hf. destruct R1; [congruence|discriminate].
+    - cbn [flat1 proper1] in *. apply andb_prop in Hp as [Hoc Hin].
+      destruct L1 as [|x L2]; [congruence|]. cbn [List.app] in Hf. injection Hf as <- Hf.
+      destruct (snoc_cases R1) as [->|[R2 [z ->]]]; [congruence|]. rewrite app_assoc in Hf. apply app_inj_tail in Hf as [Hf <-].
+      assert (Hc2 : cond L2 R2).
+      { destruct Hc as [E|[E|[[L0 [a [E Ha]]]|[b [R0 [E Hb]]]]]]; try discriminate E.
+        - destruct R2; discriminate E.
+        - destruct (snoc_cases L2) as [->|[q [w ->]]]; [now left|]. right. right. left.
+          change (o :: q ++ [w]) with ((o :: q) ++ [w]) in E. apply app_inj_tail in E as [_ ->]. eauto.
+        - destruct R2 as [|w q]; [right; now left|]. right. right. right. cbn [List.app] in E. injection E as -> _. eauto. }
+      destruct (insert_forest inner IH Hin L2 R2 Hf Hc2) as [in' [Fi [Pi HJ]]].
+      exists (TG p o c in'). split; [cbn [flat1]; fold (flat in'); rewrite Fi; lst|]. split; [cbn [proper1]; rewrite Hoc; exact Pi|]. eauto 10.
+  Qed.
+
+  Theorem insert_space ts L R : proper ts = true -> flat ts = L ++ R -> cond L R ->
+    exists ts', flat ts' = L ++ s :: R /\ proper ts' = true /\ tJ idz ts' ts.
+  Proof. intros. apply insert_forest; auto. apply Forall_forall. intros t _. apply insert_tree. Qed.
+End Insert.
+
+(* ---- the token-level statement ---- *)
+Theorem group_space s L R : is_space s = true -> cond L R ->
+  match group (L ++ s :: R) [] [], group (L ++ R) [] [] with
+  | Ok ts', Ok ts => tJ idz ts' ts
+  | Err a _, Err b _ => a = b
+  | _, _ => False
+  end.
+Proof.
+  intros Hs Hc.
+  assert (Hnd : is_delim s = false).
+  { unfold is_space in Hs. unfold is_delim, is_openk, is_closek. destruct (tk s) as [[]| | |]; try discriminate Hs; reflexivity. }
+  pose proof (group_bal (L ++ s :: R) [] []) as B'. pose proof (group_bal (L ++ R) [] []) as B. cbn [map] in B', B.
+  rewrite (bal_insert s Hnd L R []) in B'.
+  destruct (group (L ++ R) [] []) as [ts|a pa|a] eqn:E; [|destruct (group (L ++ s :: R) [] []); [congruence|congruence|contradiction]|contradiction].
+  destruct (group_sound_gen (L ++ R) [] [] ts eq_refl eq_refl E) as [Pts Fts]. cbn [consumed rev flat flat_map List.app] in Fts.
+  destruct (insert_space s Hs ts L R Pts Fts Hc) as [ts' [F' [P' HJ]]].
+  pose proof (group_complete ts' P' [] [] []) as G. rewrite !app_nil_r, F' in G. cbn [group] in G. rewrite rev_involutive in G. rewrite G. exact HJ.
+Qed.
+
+(* the parser after de-duplication of spaces *)
+Definition parse_deduped (ap : list Z) (toks : list token) : result expr :=
+  do tts <- group toks [] []; do x <- parse_top tts; stage2 ap x.
+
+Lemma parse_tokens_deduped ap toks :
+  parse_tokens ap toks = match first_bad toks with Some t => Err 73 (range (tbeg t) (tend t)) | None => parse_deduped ap (dedupe toks false) end.
+Proof. reflexivity. Qed.
+
+Theorem space_token_next_to_operator ap' ap s L R : is_space s = true -> cond L R ->
+  match parse_deduped ap' (L ++ s :: R), parse_deduped ap (L ++ R) with
+  | Ok t', Ok t => erase t' = erase t
+  | Err a _, Err b _ => a = b
+  | Internal a, Internal b => a = b
+  | _, _ => False
+  end.
+Proof.
+  intros Hs Hc. unfold parse_deduped. pose proof (group_space s L R Hs Hc) as G.
+  destruct (group (L ++ s :: R) [] []) as [ts'|a pa|a], (group (L ++ R) [] []) as [ts|b pb|b]; cbn [bind]; try contradiction; [|exact G].
+  apply (space_next_to_operator ap' ap ts' ts G).
+Qed.
+Print Assumptions space_token_next_to_operator.
